@@ -201,7 +201,8 @@ TxStep0(m, ev) ==
     ELSE \* rr / unit
     IF pf.kind = "rr" /\ m.dHandle = <<>> /\ pf.handle = Zero4 THEN                    \* UCMM request without a session: the target refuses it
         Good([m EXCEPT !.pend = [kind |-> "reply", bytes |-> ErrorReply(CmdRRData, pf.handle, pf.ctx, 100), tell |-> [k |-> "none"]]])
-    ELSE IF m.dHandle = <<>> \/ pf.handle # m.dHandle THEN Bad(m, IF pf.handle = Zero4 THEN "C10:no-session" ELSE "C11:handle")
+    ELSE IF m.dHandle = <<>> \/ pf.handle # m.dHandle
+         THEN Bad(m, IF pf.handle = Zero4 THEN "C10:no-session" ELSE IF m.dHandle = <<>> THEN "C11:handle+C10:stale-session" ELSE "C11:handle")
     ELSE IF pf.handle \notin m.sessions THEN Bad(m, "C10:no-session")
     ELSE IF pf.kind = "rr" THEN
         LET q == MRParse(pf.item) IN
@@ -253,7 +254,8 @@ TxStep0(m, ev) ==
         IF ~HasConn(m, pf.cid) \/ pf.cid \notin m.dConns THEN Bad(m, "C10:connected-before-open+C11:cid")
         ELSE LET c == ConnOf(m, pf.cid)  seq == U16(pf.item, 1) IN
         IF c.sess # pf.handle THEN Bad(m, "C10:connected-before-open+C11:cid")
-        ELSE IF Len(pf.item) > c.size THEN Bad(m, "C04:request-too-large")
+        ELSE IF Len(pf.item) > c.size       \* a frame the connection cannot carry: the call it belongs to cannot succeed on a real target
+             THEN Bad(m, "C04:request-too-large" \o (IF m.call.api = "read" THEN "+C01:request-undeliverable" ELSE IF m.call.api = "write" THEN "+C02:request-undeliverable" ELSE ""))
         ELSE IF seq = c.lastSeq THEN Bad(m, "C17:repeat")
         ELSE LET q == MRParse(SubSeq(pf.item, 3, Len(pf.item))) IN
         IF ~q.ok THEN Bad(m, "C14:malformed-request")
